@@ -97,6 +97,8 @@ VisitedOnce(st) ==
   LET E == st.obs.entered IN
   \* a recurse inside the chain starts a fresh call: methods may legitimately run again
   \/ \E a \in DOMAIN E : "via" \in DOMAIN E[a].next /\ E[a].next.via = "recurse"
+  \* the statement's "at most once" is about following call_next with the arguments received
+  \/ \E a \in DOMAIN E : E[a].next.has /\ E[a].next.call # E[a].call
   \/ \A a, b \in DOMAIN E : (a # b /\ E[a].call = E[b].call) => E[a].m # E[b].m
 
 C07Clause(st) ==
